@@ -651,6 +651,28 @@ def verify_guards(F, s, guards):
                             hit = True
             if not hit:
                 return False, "no call /%s/ with argument %d matching /%s/ in %s" % (g["callee"], g["arg"], g["matches"], F.canon_of(fb))
+        elif kind == "reset-at-limit":
+            # "the counter starts over when it reaches `limit`": the local of the `== limit` test is assigned 0 on the edge on
+            # which the test holds (in a block that the true edge dominates), not merely compared
+            fb = F.fn(g["fn"])
+            okr = False
+            for bi in range(fb.n):
+                t_ = fb.term(bi)
+                if t_["k"] != "switch":
+                    continue
+                d_ = fb.def_rv(t_["d"])
+                if not (d_ and d_[2] == "rv" and d_[3]["k"] == "bin" and d_[3]["op"] == "Eq" and const_int(op_const(d_[3]["b"])) == g["limit"]):
+                    continue
+                q_ = op_place(fb.resolve_copy(d_[3]["a"]))
+                if q_ is None or q_["p"]:
+                    continue
+                tb = t_["else"]            # `switch cond -> [0: false-edge] else true-edge`
+                for bj, sj, st_ in fb.stmts():
+                    if "lhs" in st_ and st_["lhs"]["l"] == q_["l"] and not st_["lhs"]["p"] and st_["rv"]["k"] == "use" and const_int(op_const(st_["rv"]["o"])) == 0 \
+                            and (bj == tb or fb.dominates(tb, bj)):
+                        okr = True
+            if not okr:
+                return False, "%s no longer sets the counter back to 0 where it has reached %d: it grows past the bound the argument relies on" % (g["fn"], g["limit"])
         elif kind == "reset-together":
             # a counter compared with `limit` bounds an accumulator only if the two start over together: wherever the counter
             # (the local of the `== limit` test) is set to 0, the accumulator (the local that is multiplied by `factor`) is set
